@@ -189,7 +189,15 @@ type RunRec struct {
 
 // ---- one run ----
 
+// held is a result an earlier GetBytes handed to its caller: it must stay what it was
+type held struct {
+	id   string
+	data []byte
+	out  cache.OutputID
+}
+
 type runner struct {
+	held   []held
 	dir    string
 	mu     sync.Mutex
 	events []Event
@@ -268,8 +276,19 @@ func (r *runner) lookup(c *cache.Cache, kind, id string) (res string, l1 []strin
 	aid := actionID(id)
 	if kind == "getbytes" {
 		data, e, err := c.GetBytes(aid)
+		// bytes returned by earlier lookups belong to their callers: a later lookup must not change them
+		r.mu.Lock()
+		for _, h := range r.held {
+			if sha256.Sum256(h.data) != h.out {
+				l1 = append(l1, fmt.Sprintf("the bytes an earlier GetBytes(%s) returned were changed by a later lookup", h.id))
+			}
+		}
+		if err == nil && len(r.held) < 32 {
+			r.held = append(r.held, held{id, data, e.OutputID})
+		}
+		r.mu.Unlock()
 		if err != nil {
-			return "miss", nil
+			return "miss", l1
 		}
 		if sha256.Sum256(data) != e.OutputID {
 			l1 = append(l1, fmt.Sprintf("GetBytes(%s) returned %d bytes whose SHA-256 is not the reported OutputID", id, len(data)))
